@@ -260,6 +260,25 @@ def run(ctx):
     a, b, d = corr.compile_pair(ctx, [gen.yaml_doc(cfg)])
     if a.get("errs"):
         violations.append({"sig": "todo-not-exempt", "what": "attributes of a todo service are validated: %r" % a["errs"], "files": [gen.yaml_doc(cfg)]})
+    # … in particular a todo service's getter claims nothing: the same getter on a live service (either sort order), on two todo
+    # services, and a todo service full of garbage next to ONE real defect (exactly that one is reported)
+    todo_cases = [
+        ("todo-after-live", {"a": {"constructor": "N", "getter": "GetS"}, "t": {"todo": True, "getter": "GetS"}}, 0),
+        ("todo-before-live", {"z": {"constructor": "N", "getter": "GetS"}, "t": {"todo": True, "getter": "GetS"}}, 0),
+        ("two-todos", {"t1": {"todo": True, "getter": "GetS"}, "t2": {"todo": True, "getter": "GetS"}}, 0),
+        ("todo-then-real-duplicate", {"a": {"constructor": "N", "getter": "GetS"}, "b": {"constructor": "N", "getter": "GetS"}, "t": {"todo": True, "getter": "GetS"}}, 1),
+        ("todo-garbage-plus-one-defect", {"a": {"constructor": "N", "getter": "1bad"}, "t": {"todo": True, "getter": "Must X", "constructor": "??", "type": "[", "value": "(", "tags": ["x", "x"], "fields": {"1": [1]}}}, 1),
+    ]
+    for label, svcs, nerr in todo_cases:
+        cfg = {"services": svcs}
+        a, b, d = corr.compile_pair(ctx, [gen.yaml_doc(cfg)])
+        dist["defect_sets"] += 1
+        for x in d[:1]:
+            if len(corr_fail) < 10:
+                corr_fail.append({"op": "compile:" + x[0], "files": [gen.yaml_doc(cfg)], "impl": x[1], "model": x[2]})
+        errs = a.get("errs") or []
+        if len(errs) != nerr:
+            violations.append({"sig": "todo-not-exempt", "what": "%s: expected %d diagnostic(s), got %r" % (label, nerr, errs), "files": [gen.yaml_doc(cfg)]})
     # wrong YAML node kinds (decode stage) and Go keywords: recorded findings D11 / D12
     kinds = [("scope", "services: {a: {constructor: N, scope: bogus}, 'bad name': {constructor: N}}"), ("call", "services: {a: {constructor: N, calls: [5]}, 'bad name': {constructor: N}}"),
              ("tag", "services: {a: {constructor: N, tags: [[1]]}, 'bad name': {constructor: N}}"), ("version", "version: [1]\nservices: {'bad name': {constructor: N}}")]
